@@ -162,7 +162,15 @@ template <class P> struct H {
         vh::D(fn("toThree") + ".general." + seq);
         if (a1 != a2 && a2 != a3) {   // proper Euler sequences represent every rotation: the round trip must close
             Rot R2(bs, back[0], AX(a1), back[1], AX(a2), back[2], AX(a3));
-            vh::P("roundtrip_three_angles_general", fn("toThree") + ".general." + cls + ".rt", maxDiff(R.asMat33(), R2.asMat33()), 64 * eps() * amp);
+            double err = maxDiff(R.asMat33(), R2.asMat33());
+            // (a) conditioning-aware: the regular branch divides entries of size `cond` carrying absolute error eps
+            vh::P("roundtrip_three_angles_general", fn("toThree") + ".general." + cls + ".rt", err, (cls == "neargimbal" ? 1024 : 64) * eps() * amp);
+            // (b) what the property asks: the conversion round-trips (to at least half the working precision) also in the
+            //     gimbal-lock neighbourhood.  The library keeps using the regular formulas until Rsum <= 4*Eps (double
+            //     constant, also in float), so for |cos th2| between 4*Eps and ~sqrt(eps) the rebuilt rotation is off by
+            //     ~eps/|cos th2|  (a sum/difference formulation would be backward stable) -- reported under its own key
+            if (cls == "neargimbal")
+                vh::P("roundtrip_three_angles_near_gimbal_lock", fn("toThree") + ".general.neargimbal.rt_halfprecision", err, std::sqrt(eps()));
         }
     }
     static void xyzcs(double t0, double t1, double t2) {
